@@ -3,9 +3,10 @@ import attrs
 
 from vlib import evidence, leafrt, runner, specmodel, xh
 
+CTX_DEPTH = {"quick": 3, "thorough": 4}
 PREAMBLE = [
     "from vlib import leafrt as R",
-    "R.ctx_cases()",
+    "R.ctx_cases((\"int\",), %d)",
     "from props import c12rt as V",
 ]
 IMIN, IMAX = specmodel.INT_MIN, specmodel.INT_MAX
@@ -26,7 +27,7 @@ def lemmas(tier):
         out.append(xh.Lemma("msg_%s" % c.id, [("x", "int")], ["return R.ctor_error_names_attribute(%r, x)" % c.id], meta=dict(meta, what="ValueError names Class.attribute")))
     # the same verdict when the property is reached through a parent: directly, through a union (hand-written hook or
     # cattrs' disambiguation chooses the class whose validators run), an array or a map
-    ctx = leafrt.ctx_cases()
+    ctx = leafrt.ctx_cases(("int",), CTX_DEPTH[tier])
     for cc in ctx.values():
         lo, hi = cc.case.detail["lo"], cc.case.detail["hi"]
         out.append(xh.Lemma("ctx_%s" % cc.id, [("x", "int")], ["return R.ctx_accepts(%r, x) == (%d <= x <= %d)" % (cc.id, lo, hi)], meta={"site": cc.site, "what": "converter accepts iff in range, through the parent"}))
@@ -118,7 +119,7 @@ def _validator_kind(v, VAL):
 def check(tier):
     chk = runner.Check("C12", tier)
     ls, ints = lemmas(tier)
-    results, stats = xh.run(ls, PREAMBLE, timeout=240 if tier == "thorough" else 60, label="c12")
+    results, stats = xh.run(ls, [l % CTX_DEPTH[tier] if "%d" in l else l for l in PREAMBLE], timeout=240 if tier == "thorough" else 60, label="c12")
     chk.ev.add_counts(xh.summarize(results))
     chk.ev.coverage["solver_seconds"] += stats["cpu_s"]
     chk.ev.coverage["crosshair"] = {k: stats[k] for k in ("shards", "wall_s", "cpu_s", "timeout_per_condition_s")}
@@ -141,7 +142,7 @@ def check(tier):
     chk.ev.coverage["bounds"] = {"integers": "unbounded (z3 Int)", "strings": "non-int string arguments of the validators: 5 concrete strings selected by a symbolic index", "floats": "CrossHair float model"}
     chk.ev.coverage["outside_bounds"] = ["the digits of the offending value inside the error text (format stub)", "non-integral floats passed to the converter (int() truncation, not one of the property's entry conditions)"]
     chk.ev.coverage["stubs"] = ["format(symbolic int, '') -> '<int>'", "cattrs code generation under NoTracing", "handler lookup memoised outside tracing"]
-    chk.ev.coverage["rule"] = "one lemma per (integer-typed attribute x {constructor, converter, agreement, message}), one per (attribute x parent context: %d contexts, %d through a union) plus validator-function lemmas per argument kind and per one-call history; non-trivial = reachability twin violated" % (len(leafrt.ctx_cases()), sum(1 for c in leafrt.ctx_cases().values() if c.through_union))
+    chk.ev.coverage["rule"] = "one lemma per (integer-typed attribute x {constructor, converter, agreement, message}), one per (attribute x parent context: %d contexts, %d through a union) plus validator-function lemmas per argument kind and per one-call history; non-trivial = reachability twin violated" % (len(leafrt.ctx_cases(("int",), CTX_DEPTH[tier])), sum(1 for c in leafrt.ctx_cases(("int",), CTX_DEPTH[tier]).values() if c.through_union))
     for c in ints[:4]:
         chk.ev.sample({"lemma": "conv_%s" % c.id, "site": c.site, "range": [c.detail["lo"], c.detail["hi"]], "template": c.template})
     chk.ev.coverage["explanation"] = (
@@ -157,7 +158,7 @@ def _replay(chk, lid, lemma, r, fc):
     site = lemma.meta["site"]
     a = r.args or {}
     if lid.startswith("ctx_"):
-        cc = leafrt.ctx_cases()[lid.split("_", 1)[1]]
+        cc = leafrt.ctx_lookup(lid.split("_", 1)[1])
         x = a.get("x")
         lo, hi = cc.case.detail["lo"], cc.case.detail["hi"]
         got = leafrt.ctx_accepts(cc.id, x)
